@@ -207,6 +207,14 @@ func (h *pkH) addr(tok string) (sdk.AccAddress, string) {
 	if tok == "blk" {
 		return h.blocked, h.blocked.String()
 	}
+	if strings.HasPrefix(tok, "A") {
+		// the same account, its bech32 address spelled in UPPER CASE (valid bech32; a different string)
+		a, str := h.addr("a" + tok[1:])
+		if a == nil {
+			return a, str
+		}
+		return a, strings.ToUpper(str)
+	}
 	if strings.HasPrefix(tok, "a") {
 		i, err := strconv.Atoi(tok[1:])
 		if err == nil {
@@ -225,6 +233,9 @@ func (h *pkH) addr(tok string) (sdk.AccAddress, string) {
 }
 
 func (h *pkH) aname(addr string) string {
+	if addr == strings.ToUpper(addr) {
+		addr = strings.ToLower(addr)
+	}
 	if i, ok := h.actorIdx[addr]; ok {
 		return "a" + strconv.Itoa(i)
 	}
@@ -955,12 +966,16 @@ func (h *pkH) snapshot() *pkSnap {
 		byPend[q.PendKey] = q.Name
 	}
 	for i := range h.actors {
+		// the index is keyed by the address STRING as the packet data spells it: both spellings of the account
 		ps, err := app.DelayedAckKeeper.GetPendingPacketsByAddress(ctx, h.actors[i].String())
-		if err != nil {
+		ps2, err2 := app.DelayedAckKeeper.GetPendingPacketsByAddress(ctx, strings.ToUpper(h.actors[i].String()))
+		if err != nil || err2 != nil {
 			s.Index[i], s.IndexOK[i] = []string{"ERR"}, false
 			continue
 		}
 		s.IndexOK[i] = true
+		ps = append(ps, ps2...)
+		sort.SliceStable(ps, func(a, b int) bool { return bytes.Compare(ps[a].RollappPacketKey(), ps[b].RollappPacketKey()) < 0 })
 		for _, p := range ps {
 			p := p
 			s.Index[i] = append(s.Index[i], h.pktName(&p))
